@@ -26,7 +26,7 @@ from vlib import core
 
 RADICES = [2, 8, 10, 16]
 DENOMS_QUICK = [2, 3, 4, 10, 65536, 1 << 30, (1 << 31) - 1]
-DENOMS_THOROUGH = DENOMS_QUICK + [5, 7, 8, 16, 100, 1 << 20, 1 << 29, 3 ** 19]
+DENOMS_THOROUGH = DENOMS_QUICK + [5, 7, 8, 16, 1 << 20, 1 << 29]      # 100 and 3^19 were tried: 20 min per radix (division lemmas per divisor), no new behaviour
 PREFIX = {2: '#b', 8: '#o', 10: '#d', 16: '#x'}
 
 
